@@ -17,6 +17,10 @@ Proof.
   intros He Hk. destruct o; try discriminate He; cbn [api_step root_edit]; rewrite Hk; reflexivity.
 Qed.
 
+(** InitializeRoot never replaces an existing root of trust. *)
+Theorem reinit_refused s signer : api_step s signer RInit = (Some EReinit, s).
+Proof. reflexivity. Qed.
+
 (** Whatever the API does, the policy moves only through Apply, and then only to the staged state
     when it verifies and is a valid successor of the applied one. *)
 Theorem applied_moves_only_by_apply s signer o e s' :
@@ -46,11 +50,11 @@ Definition ApiInv (s : apistate) : Prop :=
 Lemma api_step_inv s signer o e s' : ApiInv s -> api_step s signer o = (e, s') -> ApiInv s'.
 Proof.
   intros [Hc Hv] H.
-  assert (Hedit : forall o', o' = o -> is_edit o = true \/ o = RSign -> ApiInv s').
+  assert (Hedit : forall o', o' = o -> is_edit o = true \/ o = RSign \/ o = RInit -> ApiInv s').
   { intros o' _ Ho. assert (Hs : api_step s signer o = match root_edit (ap_staged s) signer o with
        | inl e0 => (Some e0, s)
        | inr ps' => (None, {| ap_first := ap_first s; ap_applied := ap_applied s; ap_staged := ps'; ap_published := ap_published s |}) end).
-    { destruct Ho as [Ho|Ho]; destruct o; try discriminate Ho; reflexivity. }
+    { destruct Ho as [Ho|[Ho|Ho]]; destruct o; try discriminate Ho; reflexivity. }
     rewrite Hs in H. destruct (root_edit (ap_staged s) signer o); injection H as _ <-; split; cbn [ap_first ap_published ap_applied]; assumption. }
   destruct o; try (apply (Hedit _ eq_refl); auto; fail).
   cbn [api_step] in H. unfold apply_accepts in H.
